@@ -153,7 +153,9 @@ def ob_pure_simulation():
                 for tt in (t.elts if isinstance(t, ast.Tuple) else [t]):
                     if _is_self_attr(tt) and tt.attr == "__zOld":
                         n += 1
-                        if m not in allowed_bind:
+                        # replacing the mesh starts a new history: the mesh setter may only EMPTY the committed state (C14.history.meshswap.InElastic needs it to)
+                        reset = m.startswith("mesh") and isinstance(stmt, ast.Assign) and isinstance(stmt.value, ast.Dict) and not stmt.value.keys
+                        if m not in allowed_bind and not reset:
                             raise Refuted(f"InElastic.{m} rebinds the committed state (line {stmt.lineno}): only Save_Iter / Set_Iter may advance the history", signature=f"pure:simu:{m}:bind",
                                           replay=_replay_simulation())
                     if isinstance(tt, ast.Subscript):
